@@ -446,6 +446,19 @@ func bridgeFacts(c *Ctx) error {
 	}
 	fmt.Fprintf(&sb, "def heightUses : List String := %s\n\n", leanList(heightUses))
 
+	// ethbridge InitGenesis: the keeper calls it makes, in source order (the genesis peggy list goes through AddPeggyToken)
+	var initCalls []string
+	if egen, err := c.ParseDir("x/ethbridge"); err == nil {
+		if fd := FindFunc(egen, "", "InitGenesis"); fd != nil {
+			for _, n := range callNames(fd.Body) {
+				if strings.HasPrefix(n, "Set") || strings.HasPrefix(n, "Add") || strings.HasPrefix(n, "Delete") {
+					initCalls = append(initCalls, n)
+				}
+			}
+		}
+	}
+	fmt.Fprintf(&sb, "def ethbridgeInitGenesisCalls : List String := %s\n\n", leanList(initCalls))
+
 	sb.WriteString("def unreadable : List String := " + leanList(unreadable) + "\n\nend Sif.Generated.BridgeConsts\n")
 	return c.WriteLean("BridgeConsts", sb.String())
 }
